@@ -114,9 +114,61 @@ Fixpoint check_stepsX (cb : bool) (fx : fixes) (nl : N) (i : Z) (st : list em) (
       (stf, map (fun c => (i, c)) (d1 ++ d2 ++ d3) ++ ds)
   end.
 
+(* Finalize iterates Go maps.  Instead of trying every permutation (EmitterTie.check_final: at most 5 labels per
+   map), the visiting orders that can explain an observation are read off the observed bytes: labels whose
+   operands all show their resolved value were visited before the failing label (or might as well have been),
+   then ONE of the labels that cannot be resolved, then the rest.  At most one candidate per unresolvable label. *)
+(* observed byte at a buffer offset; -1 outside (never [Z.to_nat] of an offset that wrapped around 2^32) *)
+Definition obs_at (obs : list Z) (i : Z) : Z := if (0 <=? i) && (i <? zlen obs) then znth obs i else -1.
+Definition good8 (e : em) (l : lbl) : bool :=
+  match lookup l (labels e), lookup l (d8 e) with
+  | Some a, Some refs => forallb (fun r => let d := a - w32 (r + 1) in (-128 <=? d) && (d <=? 127)) refs
+  | _, _ => false
+  end.
+Definition shown8 (e : em) (obs : list Z) (l : lbl) : bool :=
+  good8 e l &&
+  match lookup l (labels e), lookup l (d8 e) with
+  | Some a, Some refs => forallb (fun r => obs_at obs (w32 (r - base e)) =? (a - w32 (r + 1)) mod 256) refs
+  | _, _ => false
+  end.
+Definition good16 (e : em) (l : lbl) : bool :=
+  match lookup l (labels e) with Some _ => true | None => false end.
+Definition shown16 (e : em) (obs : list Z) (l : lbl) : bool :=
+  match lookup l (labels e), lookup l (d16 e) with
+  | Some a, Some refs =>
+      forallb (fun r => (obs_at obs (w32 (r - base e)) =? a mod 256) &&
+                        (obs_at obs (w32 (r - base e) + 1) =? (a / 256) mod 256)) refs
+  | _, _ => false
+  end.
+Definition guided (ks : list lbl) (good shown : lbl -> bool) : list (list lbl) :=
+  let P := filter shown ks in
+  let O := filter (fun l => negb (shown l)) ks in
+  let B := filter (fun l => negb (good l)) O in
+  let G := filter good O in
+  (* the first label visited after P: an unresolvable one (error), or a resolvable one whose patch is not visible
+     (only when patching panics: nil target, operand outside the buffer) *)
+  match O with
+  | [] => [ks]
+  | _ => map (fun x => P ++ [x] ++ filter (fun l => negb (N.eqb l x)) (B ++ G)) (B ++ G)
+  end.
+
+Definition check_finalX (f : final) (e : em) : list (Z * Z) :=
+  (if render_eqb (WriteHexTo e) (f_hex1 f) then [] else [(-1, 20)]) ++
+  (if render_eqb (WriteTextTo e) (f_text1 f) then [] else [(-1, 21)]) ++
+  (let k8 := keys (d8 e) in let k16 := keys (d16 e) in
+   if final_ok f e k8 k16 then []
+   else if exists_sc (fun o8 => exists_sc (fun o16 => final_ok f e o8 o16)
+                                          (guided k16 (good16 e) (shown16 e (f_bytes f))))
+                     (guided k8 (good8 e) (shown8 e (f_bytes f)))
+        then []
+        else if (Nat.leb (length k8) 5 && Nat.leb (length k16) 5)%bool
+             then (if exists_sc (fun o8 => exists_sc (fun o16 => final_ok f e o8 o16) (perms k16)) (perms k8)
+                   then [] else [(-1, 22)])
+             else [(-1, 23)]).
+
 Definition check_caseX (cb : bool) (fx : fixes) (c : case) : list (Z * Z) :=
   let '(st, ds) := check_stepsX cb fx (c_nl c) 0 [new_em (c_target c) (c_gen c)] None (c_steps c) in
-  ds ++ match st with e :: _ => check_final (c_final c) e | [] => [(-1, 30)] end.
+  ds ++ match st with e :: _ => check_finalX (c_final c) e | [] => [(-1, 30)] end.
 
 Definition bad_casesX (cb : bool) (fx : fixes) (cs : list case) : list (Z * list (Z * Z)) :=
   filter (fun x => match snd x with [] => false | _ => true end)
